@@ -720,6 +720,25 @@ Proof.
   exact (continuity_ok _ _ (bo_cont _ _ _ _ _ _ _ _ B) G).
 Qed.
 
+(** the reported hash and the checked parent come from the SAME encoding: the parsed header if
+    there is one, the raw fields otherwise *)
+Theorem ok_same_source c pm keys nfs b r :
+  scan_block c (Some pm) keys nfs b = Ok r -> p_height pm + 1 < U32 ->
+  match b_hdr b with
+  | Some hd => s_hash r = fst hd /\ snd hd = p_hash pm
+  | None => flen (b_hash b) = 32 /\ s_hash r = fid (b_hash b)
+            /\ flen (b_prev b) = 32 /\ fid (b_prev b) = p_hash pm
+  end.
+Proof.
+  intros H G. destruct (ok_identity _ _ _ _ _ _ H) as (_ & _ & HH & _).
+  destruct (ok_connected _ _ _ _ _ _ H G) as [_ HP].
+  unfold spec_hash, spec_prev, wf32 in *. destruct (b_hdr b) as [hd|].
+  - inversion HH; inversion HP; auto.
+  - destruct (flen (b_hash b) =? 32) eqn:A; [|discriminate].
+    destruct (flen (b_prev b) =? 32) eqn:B; [|discriminate].
+    inversion HH; inversion HP. repeat split; auto; lia.
+Qed.
+
 (** every transaction of an accepted block has well-formed fields *)
 Theorem ok_fields c prior keys nfs b r :
   scan_block c prior keys nfs b = Ok r ->
